@@ -254,6 +254,11 @@ def architectures():
         m = DeepJSCCModel(enc, K.AveragePowerConstraint(1.0), C.AWGNChannel(snr_db=10.0), dec)
         return m, enc, lambda x: m(x), dict(stride=4, filters=256, ratio=256 / 48.0, strided=2, rng=(0.0, 1.0))
 
+    def kurka_model():
+        # the bundled feedback MODEL (base layer): its own glue between encoder output and decoder input
+        m = KU.DeepJSCCFeedbackModel(channel_snr=10.0, conv_depth=16, channel_type="awgn", feedback_snr=None, refinement_layer=False, layer_id=0)
+        return m, m.encoder, lambda x: m(x)["decoded_img"], dict(stride=4, filters=None, ratio=None, strided=2, rng=(0.0, 1.0))
+
     def wz(kind):
         def mk():
             if kind == "small":
@@ -287,7 +292,7 @@ def architectures():
                 return y[:, 0] + 0 * y[:, 1].flip(0) if y.dim() == 5 else y
             return m, m.encoders, run, dict(stride=16, filters=None, ratio=None, strided=4, rng=None, only_size=32 if not shared else None)
         return mk
-    return {"yilmaz2023_noma_embedding": noma(False), "yilmaz2023_noma_shared": noma(True), "bourtsoulatze2019": bour, "tung2022_q": tungq, "tung2022_q2_csi": tungq2, "kurka2020": kurka, "yilmaz2024_wz_small": wz("small"), "yilmaz2024_wz": wz("full"),
+    return {"yilmaz2023_noma_embedding": noma(False), "yilmaz2023_noma_shared": noma(True), "bourtsoulatze2019": bour, "tung2022_q": tungq, "tung2022_q2_csi": tungq2, "kurka2020": kurka, "kurka2020_feedback_model": kurka_model, "yilmaz2024_wz_small": wz("small"), "yilmaz2024_wz": wz("full"),
             "yilmaz2024_wz_conditional": wz("cond")}
 
 
@@ -300,7 +305,8 @@ def check_e2e(ctx, cell, case):
     if not ok:
         return
     model, enc, run, meta = built
-    if size % meta["stride"] or (meta.get("only_size") and size != meta["only_size"]):
+    H_, W_ = (size, size) if isinstance(size, int) else (int(size[0]), int(size[1]))
+    if H_ % meta["stride"] or W_ % meta["stride"] or (meta.get("only_size") and (H_ != meta["only_size"] or W_ != meta["only_size"])):
         return
     zero_count = None
     for trial in range(3):
@@ -309,7 +315,7 @@ def check_e2e(ctx, cell, case):
             torch.manual_seed(case.get("seed", ctx.seed) + 1000 * trial)
             model, enc, run, meta = architectures()[arch]()
         model.train()
-        x = torch.rand(batch, 3, size, size)
+        x = torch.rand(batch, 3, H_, W_)
         ok, y = ctx.call(lambda: run(x), "C19.f_forward_raises", cell, case, checker="c19:check_e2e")
         if not ok:
             return
@@ -331,11 +337,11 @@ def check_e2e(ctx, cell, case):
                     z = enc(x, x, csi) if "conditional" in arch else enc(x, csi)
                 else:
                     z = enc(x)
-            exp_lat = (batch, meta["filters"], size // meta["stride"], size // meta["stride"])
+            exp_lat = (batch, meta["filters"], H_ // meta["stride"], W_ // meta["stride"])
             if meta["filters"] is not None:
               ctx.check(tuple(z.shape) == exp_lat, "C19.e_latent_shape", cell, case, list(z.shape), list(exp_lat), "latent does not have the documented shape (B, F, H/s, W/s)", "c19:check_e2e")
             if meta["ratio"] is not None:
-                r = z[0].numel() / (3 * size * size)
+                r = z[0].numel() / (3 * H_ * W_)
                 ctx.check(abs(r - meta["ratio"]) <= 1e-9, "C19.e_bandwidth_ratio", cell, case, r, meta["ratio"], "latent size / image size differs from the bandwidth ratio behind calculate_num_filters_factor_image", "c19:check_e2e")
         if tuple(y.shape) != tuple(x.shape):
             return
@@ -357,6 +363,10 @@ def unit_e2e(ctx, arch, sizes, batches):
     for s in sizes:
         for b in batches:
             check_e2e(ctx, None, {"arch": arch, "size": s, "batch": b, "seed": ctx.seed})
+        if s == 16:
+            # non-square admissible images (height != width): latents are (H/s, W/s), not (W/s, H/s)
+            for hw in ([16, 32], [32, 16]):
+                check_e2e(ctx, {"arch": arch, "image": "non_square"}, {"arch": arch, "size": hw, "batch": 2, "seed": ctx.seed})
 
 
 def units(tier, seed):
@@ -366,10 +376,10 @@ def units(tier, seed):
     for i in range(0, len(names), 2):
         us.append(Unit(f"grad_{i // 2:02d}", "c19:unit_grads", {"names": names[i:i + 2]}, 3))
     us.append(Unit("grad_scales", "c19:unit_grad_scales", {}, 1))
-    for arch in ("bourtsoulatze2019", "tung2022_q", "tung2022_q2_csi", "kurka2020", "yilmaz2024_wz_small", "yilmaz2024_wz", "yilmaz2024_wz_conditional", "yilmaz2023_noma_embedding", "yilmaz2023_noma_shared"):
-        stride16 = arch not in ("bourtsoulatze2019", "kurka2020")
+    for arch in ("bourtsoulatze2019", "tung2022_q", "tung2022_q2_csi", "kurka2020", "kurka2020_feedback_model", "yilmaz2024_wz_small", "yilmaz2024_wz", "yilmaz2024_wz_conditional", "yilmaz2023_noma_embedding", "yilmaz2023_noma_shared"):
+        stride16 = arch not in ("bourtsoulatze2019", "kurka2020", "kurka2020_feedback_model")
         sizes = [16, 32, 48, 64]
-        if arch == "kurka2020" and not T:
+        if arch in ("kurka2020", "kurka2020_feedback_model") and not T:
             sizes = [16, 32]
         for s in sizes:
             us.append(Unit(f"e2e_{arch}_{s}", "c19:unit_e2e", {"arch": arch, "sizes": [s], "batches": [1, 2, 5] if (T or s <= 32) else [1, 2]}, (s / 16) ** 2 * (6 if arch == "kurka2020" else 2)))
